@@ -446,6 +446,35 @@ fn enumerate_budget(_t: Tier) -> Box<dyn Iterator<Item = BudgetCase>> {
     Box::new(v.into_iter())
 }
 
+
+// ---------------------------------------------------------------------------
+// bounded-exhaustive: every pair of non-empty strings over {a,b} up to length 3 (4 thorough),
+// k in {1,2}, w in {0,1}, the scoring grid of C01/exhaustive, custom mode for every clip combination
+// and the three standard modes once per (table, gap) block
+
+fn enumerate_small(t: Tier) -> Box<dyn Iterator<Item = Case>> {
+    let maxlen = match t {
+        Tier::Quick => 3,
+        Tier::Thorough => 4,
+    };
+    let strings: Vec<Vec<u8>> = c01::small_strings(maxlen).into_iter().filter(|s| !s.is_empty()).collect();
+    let strings = std::sync::Arc::new(strings);
+    let specs: Vec<ScoreSpec> = c01::exhaustive_specs(Tier::Quick).into_iter().filter(|sp| sp.table != vec![0, 1, -1, -1]).collect();
+    let n = strings.len();
+    Box::new(specs.into_iter().flat_map(move |sp| {
+        let strings = strings.clone();
+        let std_modes = sp.clips == [None; 4];
+        (0..n * n * 4).flat_map(move |q| {
+            let (pair, kw) = (q / 4, q % 4);
+            let (k, w) = (1 + kw / 2, kw % 2);
+            let (x, y) = (strings[pair / n].clone(), strings[pair % n].clone());
+            let entries: Vec<Entry> = if std_modes { vec![Entry::Custom, Entry::Global, Entry::Semiglobal, Entry::Local] } else { vec![Entry::Custom] };
+            let sp = sp.clone();
+            entries.into_iter().map(move |entry| Case { spec: sp.clone(), with_match_scores: true, k, w, history: Vec::new(), call: BCall { entry, x: B(x.clone()), y: B(y.clone()) } })
+        })
+    }))
+}
+
 pub fn property() -> Property {
     Property {
         id: "C02",
@@ -468,6 +497,7 @@ pub fn property() -> Property {
                 must_reach: &["partial band", "full band (no match)", "w=0", "reuse", "entry custom_with_match_path", "entry custom_with_expanded_matches", "entry semiglobal_with_prehash", "banded score below the unbanded optimum", "match_scores: Some"],
                 watch: true,
             }),
+            Box::new(ExhSub { name: "C02/exhaustive", enumerate: enumerate_small, check, must_reach: &["partial band", "full band (no match)", "w=0", "entry global", "entry semiglobal", "entry local"] }),
             Box::new(ExhSub { name: "C02/budget", enumerate: enumerate_budget, check: check_budget, must_reach: &["exactly 5,000,000 cells: aligned", "above 10,000,000 cells: sentinel"] }),
         ],
     }
